@@ -133,7 +133,7 @@ def run(ctx):
         I = with_op_types(I0)
         env = SM.env_json(I)
         for rident in ("canonical", "r:" + ident):
-            r = K.rendering_of(rident)
+            r = K.rendering_of(rident, anonymous=False)
             docs = IF.render(r, I0)
             try:
                 client = K.make_client(docs)
@@ -308,7 +308,7 @@ def replay(ctx, payload):
         return {"fails": bool(f), "recorded": f}
     I0 = K.iface_of(m["iface"])
     I = with_op_types(I0)
-    client = K.make_client(IF.render(K.rendering_of(m["rendering"]), I0))
+    client = K.make_client(IF.render(K.rendering_of(m["rendering"], anonymous=False), I0))
     if "name" in m:
         try:
             got = repr(K.normal(client.factory.create(m["name"])))
